@@ -5,6 +5,7 @@
  *              failure; otherwise the leading digit run read as an integer, > 65535 -> failure, else its decimal form without leading zeros;
  *   protocol : scheme state on value + "://dummy.test": first byte ASCII alpha, then ASCII alphanumeric / + - . -> the lower-cased
  *              scheme, anything else -> failure (inputs ending in ':' are ada's own convention and excluded here);
+ *   search / hash : query / fragment state with state override (tab/newline removed, query resp. fragment percent-encode set);
  *   ipv6 hostname : only [ ] : and ASCII hex digits, lower-cased, else failure. */
 void harness(void) {
   HAVOC_BUFS;
@@ -14,6 +15,20 @@ void harness(void) {
   result_str_t_t u = canonicalize_username(input), p = canonicalize_password(input);
   __CPROVER_assert(u.has && ref_bytes_eq(u.v.d, u.v.n, ref, rn), "postcondition: canonicalize_username == userinfo percent-encoding, never fails");
   __CPROVER_assert(p.has && ref_bytes_eq(p.v.d, p.v.n, ref, rn), "postcondition: canonicalize_password == userinfo percent-encoding, never fails");
+#elif defined(CANON_SEARCH) || defined(CANON_HASH)
+  /* query / fragment state with state override on the non-special dummy URL: ASCII tab/newline removed, then the query (not the
+   * special-query) resp. the fragment percent-encode set; never fails */
+  char t[BUF_N + 1]; size_t tn = 0;
+  for (size_t i = 0; i < input.n; i++) if (!SPEC_TAB_OR_NEWLINE(input.p[i])) t[tn++] = input.p[i];
+  char ref[3 * BUF_N + 1];
+#ifdef CANON_SEARCH
+  size_t rn = ref_percent_encode((sv_t){t, tn}, G_QUERY_PERCENT_ENCODE, ref);
+  result_str_t_t r = canonicalize_search(input);
+#else
+  size_t rn = ref_percent_encode((sv_t){t, tn}, G_FRAGMENT_PERCENT_ENCODE, ref);
+  result_str_t_t r = canonicalize_hash(input);
+#endif
+  __CPROVER_assert(r.has && ref_bytes_eq(r.v.d, r.v.n, ref, rn), "postcondition: tab/newline removed, then percent-encoded with the component's set; never fails");
 #elif defined(CANON_PORT)
   char t[BUF_N + 1]; size_t tn = 0;
   for (size_t i = 0; i < input.n; i++) if (!SPEC_TAB_OR_NEWLINE(input.p[i])) t[tn++] = input.p[i];
